@@ -89,6 +89,10 @@ class Check:
     # ------------------------------------------------------------------ kernels (front end A)
     def kernel(self, qualname, clause_filter=None, timeout_ms=30000, replayer=None, tag="K"):
         """verify kernel `module.func` against its sidecar contract; returns list of raw obligations"""
+        if clause_filter is None:
+            if ("kernel", qualname) in self.done:
+                return []  # already verified against its full contract in this run
+            self.done.add(("kernel", qualname))
         modname, fname = qualname.split(".")
         disp = getattr(self.module(modname), fname, None)
         if disp is None:
